@@ -526,9 +526,19 @@ func LogEvent(msg string) {
 	if ex.aborting {
 		return
 	}
+	// A logged event is what the oracles order against other threads' events, so it is a
+	// scheduling point of its own: without it the window "after the thread's last intercepted
+	// operation, before the plain code that calls back into the harness" (e.g. between a
+	// worker's unlock and its call of a user callback) could not be given to another thread.
+	if LogPoints {
+		Point(KLog, ObjLog, true, "log")
+	}
 	t := ex.running
 	ex.logEvent(t, msg)
 }
+
+// LogPoints makes every LogEvent a scheduling point (default on).
+var LogPoints = true
 
 //go:norace
 func (ex *Exec) logEvent(t *Thread, msg string) {
